@@ -142,7 +142,7 @@ def run_stats(res, tag, seed, n):
                "From AG Require Import Stats RunStats.\nLocal Open Scope Q_scope.\n")
     codes = C.coq_eval(tag + "_stat", imports, "", [term_stat(c) for c in cases], "checkstat")
     res.add_cases(len(cases), [("stat", c["tag"], str(c["x"])) for c in cases], [{"configuration": c["tag"]} for c in cases[:1]])
-    names = ["var", "std", "prod", "cumsum"]
+    names = ["var", "std", "prod", "cumsum", "linalg.norm"]
     bad = [dict(c, site={"primitive": names[c["fn"]]}, primitive=names[c["fn"]], configuration=c["tag"],
                 what="reduction rule: shapes or primal value wrong") for c, k in zip(cases, codes) if k == 2]
     tie = [c for c, k in zip(cases, codes) if k == 1]
